@@ -66,7 +66,7 @@ fn c12_fastq_plus_line_unterminated() {
     }
 }
 
-// @verif prop=C12 id=O12.7c tier=quick unwind=7 stubs="memchr::memchr->first-occurrence loop (cfg(kani) source shim, documented contract)" bound="FASTQ plus line '+' b0 LF followed by one more byte (1 symbolic non-LF byte, e.g. CR), split in two fill_buf windows at ANY offset: exactly the 3 bytes of the line are consumed" fns="fastq::io::reader::record::consume_plus_line,consume_line,read_u8"
+// @verif prop=C12 id=O12.7c tier=thorough unwind=7 stubs="memchr::memchr->first-occurrence loop (cfg(kani) source shim, documented contract)" bound="FASTQ plus line '+' b0 LF followed by one more byte (1 symbolic non-LF byte, e.g. CR), split in two fill_buf windows at ANY offset: exactly the 3 bytes of the line are consumed" fns="fastq::io::reader::record::consume_plus_line,consume_line,read_u8"
 #[kani::proof]
 #[kani::unwind(7)]
 fn c12_fastq_short_plus_line_any_windows() {
